@@ -27,7 +27,7 @@ def plan(ctx):
                     fams=[("conf2", "conf", 2, None, 900), ("mix2", "mix", 2, None, 500), ("conf4", "conf", 4, "sim", 500)],
                     corrupt=300)
     return dict(flavors=["oid/oid", "path/oidf", "oidf/path", "path/path"], resolvers=RESOLVERS,
-                fams=[("conf2", "conf", 2, None, None), ("mix2", "mix", 2, None, None), ("conf3", "conf", 3, None, 25000),
+                fams=[("conf2", "conf", 2, None, None), ("mix2", "mix", 2, None, None), ("conf3", "conf", 3, None, 8000),
                       ("std2", "std", 2, None, None), ("conf5", "conf", 5, "sim", 4000)],
                 corrupt=6000)
 
